@@ -138,7 +138,7 @@ def _warm_up():
     cwd = os.getcwd()
     argv = sys.argv
     try:
-        for prog, base in (('hip', WL.HIP_BASE), ('geo', WL.GEO_BASE)):
+        for prog, base in (('hip', WL.HIP_BASE), ('hipold', WL.HIPOLD_BASE), ('geo', WL.GEO_BASE)):
             p = os.path.join(d, f'{prog}.txt')
             with open(p, 'w') as f:
                 f.write(base)
@@ -159,10 +159,13 @@ def reference_run(prog, input_path):
     cwd = os.getcwd()
     argv = sys.argv
     try:
-        if prog == 'hip':
+        if prog in ('hip', 'hipold'):
             from hip_ra import HipRaInputParameters
-            from hip_ra_x import HipRaXClient
-            r = HipRaXClient().get_hip_ra_result(HipRaInputParameters(Path(input_path)))
+            if prog == 'hip':
+                from hip_ra_x import HipRaXClient as _Client
+            else:
+                from hip_ra import HipRaClient as _Client
+            r = _Client().get_hip_ra_result(HipRaInputParameters(Path(input_path)))
             with open(r.output_file_path) as f:
                 txt = f.read()
             os.unlink(r.output_file_path)
@@ -191,11 +194,11 @@ def gen_config(cs, tier='quick', force=None):
     force = force or {}
     c = {}
     c['mode'] = force.get('mode') or ('strict' if cs.choose(4, 'mode') < 3 else 'extended')
-    c['program'] = force.get('program') or ('hip' if cs.choose(6, 'program') < 5 else 'geo')
-    hip = c['program'] == 'hip'
+    c['program'] = force.get('program') or ['hip', 'hip', 'hip', 'hip', 'hipold', 'geo'][cs.choose(6, 'program')]
+    hip = c['program'] != 'geo'
     c['base'] = cs.choose(2, 'base')
-    table = WL.HIP_INPUTS if hip else WL.GEO_INPUTS
-    outs = WL.HIP_OUTPUTS if hip else WL.GEO_OUTPUTS
+    table = {'hip': WL.HIP_INPUTS, 'hipold': WL.HIPOLD_INPUTS, 'geo': WL.GEO_INPUTS}[c['program']]
+    outs = {'hip': WL.HIP_OUTPUTS, 'hipold': WL.HIPOLD_OUTPUTS, 'geo': WL.GEO_OUTPUTS}[c['program']]
     c['iter_fail'] = cs.choose(3, 'iter_fail') == 2
     names = list(table)
     nin = 1 + cs.choose(min(4, len(names)), 'nin')
@@ -295,6 +298,8 @@ def settings_text(c):
 def base_text(c):
     if c['program'] == 'hip':
         return [WL.HIP_BASE, WL.HIP_BASE_2][c['base']]
+    if c['program'] == 'hipold':
+        return [WL.HIPOLD_BASE, WL.HIPOLD_BASE_2][c['base']]
     return [WL.GEO_BASE, WL.GEO_BASE_2][c['base']]
 
 
@@ -349,7 +354,7 @@ def run_one(payload):
             from geophires_monte_carlo import GeophiresMonteCarloClient
             from geophires_monte_carlo import MonteCarloRequest
             from geophires_monte_carlo import SimulationProgram
-            prog = SimulationProgram.HIP_RA_X if c['program'] == 'hip' else SimulationProgram.GEOPHIRES
+            prog = {'hip': SimulationProgram.HIP_RA_X, 'hipold': SimulationProgram.HIP_RA}.get(c['program'], SimulationProgram.GEOPHIRES)
             if c.get('pre_run'):
                 stg0 = os.path.join(work, 'mc_settings_pre.txt')
                 with K._real['open'](stg0, 'w') as f0:
@@ -390,7 +395,7 @@ def run_one(payload):
                 from geophires_monte_carlo import GeophiresMonteCarloClient
                 from geophires_monte_carlo import MonteCarloRequest
                 from geophires_monte_carlo import SimulationProgram
-                prog = SimulationProgram.HIP_RA_X if c['program'] == 'hip' else SimulationProgram.GEOPHIRES
+                prog = {'hip': SimulationProgram.HIP_RA_X, 'hipold': SimulationProgram.HIP_RA}.get(c['program'], SimulationProgram.GEOPHIRES)
                 try:
                     GeophiresMonteCarloClient().get_monte_carlo_result(MonteCarloRequest(prog, Path(inp_b), Path(stg_b), Path(out_b)))
                     outcome_b['main'] = 'ok'
@@ -775,7 +780,7 @@ def analyse(rec, c, k, out_path, inp_path, payload, driver=None):
                     pit.append((i['dist'], round(u, 6)))
         rec['pit'] = pit
     # --- C14: replay rows -------------------------------------------------------------
-    nrep = payload.get('replay_rows', 6 if c['program'] == 'hip' else 3)
+    nrep = payload.get('replay_rows', 3 if c['program'] == 'geo' else 6)
     base = base_text(c)
     cand = [r for r in rows if len(r[1]) == len(c['outputs']) and [p[0] for p in r[2]] == in_names]
     if len(cand) > nrep:
